@@ -244,6 +244,27 @@ impl<'a> Rules<'a> {
 }
 
 impl<'a> VisitMut for Rules<'a> {
+    fn visit_local_mut(&mut self, l: &mut syn::Local) {
+        // R22 with a declared target type: `let v: Vec<T> = A.iter().map(..).collect();` keeps the annotation on the accumulator
+        if self.ctx.on("R22") {
+            if let (syn::Pat::Type(pt), Some(init)) = (&l.pat, &mut l.init) {
+                let ty = (*pt.ty).clone();
+                if ty.to_token_stream().to_string().starts_with("Vec") {
+                    if let Some(mut new) = self.rewrite_map_collect(&init.expr) {
+                        if let syn::Expr::Block(b) = &mut new {
+                            if let Some(syn::Stmt::Local(first)) = b.block.stmts.first_mut() {
+                                let fp = first.pat.clone();
+                                first.pat = syn::Pat::Type(syn::PatType { attrs: vec![], pat: Box::new(fp), colon_token: Default::default(), ty: Box::new(ty) });
+                            }
+                        }
+                        *init.expr = new;
+                        self.ctx.used("R22");
+                    }
+                }
+            }
+        }
+        syn::visit_mut::visit_local_mut(self, l);
+    }
     fn visit_type_mut(&mut self, t: &mut syn::Type) {
         syn::visit_mut::visit_type_mut(self, t);
         if self.ctx.on("R13") {
@@ -329,6 +350,43 @@ impl<'a> VisitMut for Rules<'a> {
     }
 
     fn visit_block_mut(&mut self, b: &mut syn::Block) {
+        if self.ctx.on("R13") {
+            // R13e: `M.entry(K).or_insert(V);` (statement, result unused) on a listed map -> `let k = K; if !M.contains_key(&k) { M.insert(k, V); }`
+            // (the documented meaning of Entry::or_insert: the value is inserted only when the key is absent)
+            let mut out: Vec<syn::Stmt> = Vec::with_capacity(b.stmts.len());
+            for st in b.stmts.drain(..) {
+                let mut done = false;
+                if let syn::Stmt::Expr(syn::Expr::MethodCall(oi), Some(_)) = &st {
+                    if oi.method == "or_insert" && oi.args.len() == 1 {
+                        if let syn::Expr::MethodCall(en) = &*oi.receiver {
+                            if en.method == "entry" && en.args.len() == 1 && is_r13_map(self.ctx, &en.receiver) {
+                                let k = self.ctx.fresh();
+                                let kk = syn::Ident::new(&format!("vx_k{}", k), proc_macro2::Span::call_site());
+                                let (m, key, val) = (&en.receiver, &en.args[0], &oi.args[0]);
+                                out.push(syn::parse_quote!(let #kk = #key;));
+                                out.push(syn::Stmt::Expr(syn::parse_quote!(if !#m.contains_key(&#kk) { #m.insert(#kk, #val); }), None));
+                                self.ctx.used("R13");
+                                done = true;
+                            }
+                        }
+                    }
+                }
+                if !done { out.push(st); }
+            }
+            b.stmts = out;
+        }
+        if self.ctx.on("R44") {
+            // R44: `panic!(..)` -> vx_panic() (a call that does not return; the message is dropped).  Partial correctness:
+            // contracts say nothing about a call that panics, exactly as Rust's own semantics of `-> !`.
+            for st in b.stmts.iter_mut() {
+                if let syn::Stmt::Macro(sm) = st {
+                    if sm.mac.path.is_ident("panic") {
+                        *st = syn::parse_quote!(vx_panic(););
+                        self.ctx.used("R44");
+                    }
+                }
+            }
+        }
         if self.ctx.on("R34") {
             // R34 (lazy iterator chain, by the std definitions of Iterator::map / next / fold):
             //   let mut IT = A.iter().map(|p| F);
@@ -795,6 +853,37 @@ impl<'a> VisitMut for Rules<'a> {
                     syn::Expr::Reference(r) if r.mutability.is_none() => (Some((*r.expr).clone()), "ref"),
                     other => (Some(other.clone()), "val"),
                 };
+                // R13m: `for v in M.values_mut() { .. v.method(..) / *v .. }` on a listed map -> index loop that copies the value out
+                // (value_at), runs the body on the copy and writes it back at the same position (set_index)
+                if let (syn::Expr::MethodCall(m), syn::Pat::Ident(vid)) = (&*fl.expr, &*fl.pat) {
+                    if m.method == "values_mut" && m.args.is_empty() && is_r13_map(self.ctx, &m.receiver) && !has_own_continue(&fl.body) {
+                        let recv = (*m.receiver).clone();
+                        let k = self.ctx.fresh();
+                        let nn = syn::Ident::new(&format!("vx_n{}", k), proc_macro2::Span::call_site());
+                        let ii = syn::Ident::new(&format!("vx_i{}", k), proc_macro2::Span::call_site());
+                        let vv = syn::Ident::new(&format!("vx_v{}", k), proc_macro2::Span::call_site());
+                        let mut body = fl.body.clone();
+                        let cur: syn::Expr = syn::parse_quote!(#vv);
+                        let mut dr = DerefReplacer { ident: vid.ident.to_string(), rep: cur.clone(), n: 0 };
+                        dr.visit_block_mut(&mut body);
+                        let mut pr = PathReplacer { ident: vid.ident.to_string(), rep: cur };
+                        pr.visit_block_mut(&mut body);
+                        let stmts = &body.stmts;
+                        let label = fl.label.clone();
+                        let new: syn::Expr = syn::parse_quote!({
+                            let #nn = #recv.len();
+                            #label for #ii in 0..#nn {
+                                let mut #vv = #recv.value_at(#ii);
+                                #(#stmts)*
+                                #recv.set_index(#ii, #vv);
+                            }
+                        });
+                        *e = new;
+                        self.ctx.used("R13");
+                        syn::visit_mut::visit_expr_mut(self, e);
+                        return;
+                    }
+                }
                 if let (Some(recv), syn::Pat::Tuple(tp)) = (recv, &*fl.pat) {
                     let rtxt = norm(&recv.to_token_stream().to_string());
                     // entries: "<receiver expr>" or "<receiver expr>:ref|val|mut" (explicit mode when the syntax does not show it)
@@ -1322,6 +1411,12 @@ impl<'a> VisitMut for Rules<'a> {
                 }
                 if self.ctx.on("R13") && s == "IndexSet::new" {
                     *e = syn::parse_quote!(SSet::new);
+                    self.ctx.used("R13");
+                    return;
+                }
+                if self.ctx.on("R13") && s == "IndexMap::with_capacity" {
+                    // the capacity is a performance hint only
+                    *e = syn::parse_quote!(SMap::with_capacity);
                     self.ctx.used("R13");
                     return;
                 }
